@@ -424,6 +424,29 @@ func c02Record(c *h.Ctx) error {
 			m["line"] = runes(line)
 			emit(m)
 		}
+		if idx%3 == 1 && idx+1 < len(scens) {
+			// history: the same instance is given the next scenario's credential through its exported fields and asked
+			// again; every output must verify for the credential the instance holds NOW (nothing cached from before)
+			s2 := scens[idx+1]
+			base2 := func(op string) map[string]interface{} {
+				byOp[op+"(reused)"]++
+				return map[string]interface{}{"op": op, "user": runes(s2.user), "dom": runes(s2.dom), "pw": runes(s2.pw),
+					"sc": h.Bytes(s2.sc[:]), "cc": h.Bytes(s2.cc[:]), "history": "instance reused after its credential fields were reassigned"}
+			}
+			n.Domain, n.Username, n.Password, n.ServerChallenge, n.ClientChallenge = s2.dom, s2.user, s2.pw, s2.sc, s2.cc
+			if resp, err := n.Hash(); err == nil {
+				m = base2("resp")
+				m["api"] = "Hash"
+				m["resp"] = h.Bytes(resp)
+				emit(m)
+			}
+			if line, err := n.ToHashcatString(); err == nil && !strings.ContainsAny(s2.user+s2.dom, ":") {
+				m = base2("line")
+				m["api"] = "ToHashcatString"
+				m["line"] = runes(line)
+				emit(m)
+			}
+		}
 		if idx%2 == 0 {
 			// AUTHENTICATE under extended session security; target info = a well-formed AV pair list from the "server"
 			ti := []byte{}
